@@ -29,7 +29,8 @@ RULE = (
     "in the grid's data shape, with a leading time axis of length 1 or 2, in canonical shape or of a wrong shape, "
     "plain and masked; each pair through the grid methods, through a real Output >> Input link, and as a script on "
     "the link (static output and input read 2-4 times with and without a time; non-static link with 2-3 "
-    "publications each read 1-3 times) where every read is judged; plus scripts on 2-3 living grid objects "
+    "publications each read 1-3 times; payload as matrix or as flat 1-D array in the grid's order; the mask carried "
+    "by the data, declared by the source, or declared by both ends each in its own layout) where every read is judged; plus scripts on 2-3 living grid objects "
     "(compatible_with / == / get_transform_to against the same partner repeatedly, data_location changes accepted "
     "and rejected, shallow and deep copies) where every answer is judged against the objects' current fields; "
     "non-trivial = the grids are compatible and the two layouts differ (a real transformation happens) and the grid "
@@ -163,20 +164,45 @@ def make_case(kind, g, h, mode, rng, masked=None):
 SEQ_OFF = 5000  # data set number k carries the location codes + k * SEQ_OFF
 
 
-def make_seq_case(g, h, static, mode, npulls, rng, masked=None):
+def make_seq_case(g, h, static, mode, npulls, rng, masked=None, flat=False, declare=None, push_masked=True):
     """script on one link: static -> one publication read several times (time None and a time);
-    non-static -> several publications, each read once or more at its own time"""
+    non-static -> several publications, each read once or more at its own time.
+    flat: the source pushes 1-D arrays of data_size entries in the grid's order (mode "data" only).
+    declare: None | "source" | "both" -- the (one, fixed) mask is declared in the Info of the source / of both ends,
+    each end giving the same physical mask as a boolean array in its own layout; push_masked says whether the
+    pushed arrays carry the mask themselves or are plain (then tools.prepare applies the declared mask)."""
+    if flat:
+        mode = "data"
+    base = make_case("link", g, h, mode, rng, masked=(True if declare else masked))
+    holes = [v is None for v in base["vals"]]
+    plain = make_case("link", g, h, mode, rng, masked=False)["vals"]
     sets = []
     for k, _ in enumerate(npulls):
-        c = make_case("link", g, h, mode, rng, masked=masked)
-        c["vals"] = [None if v is None else v + k * SEQ_OFF for v in c["vals"]]
-        sets.append({"shape": c["shape"], "vals": c["vals"]})
+        sets.append({"shape": base["shape"], "vals": [None if m else v + k * SEQ_OFF for v, m in zip(plain, holes)]})
     ops = []
     for k, n in enumerate(npulls):
         ops.append(["push", k])
         ops += [["pull"]] * n
     return {"kind": "linkseq", "g": g, "h": h, "static": bool(static), "mode": mode, "sets": sets, "ops": ops,
-            "masked": any(v is None for d in sets for v in d["vals"])}
+            "masked": any(holes), "flat": bool(flat), "declare": declare, "push_masked": bool(push_masked or not declare)}
+
+
+def mask_arrays(case):
+    """the declared mask in the layout of the source and of the input (same physical locations)"""
+    g, h = case["g"], case["h"]
+    ds = data_shape(g)
+    holes = case["sets"][0]["vals"][: int(np.prod(ds))]
+    mg = np.array(holes_bool(holes)).reshape(ds)
+    masked_canon = {tuple(canon_of(g, idx)) for idx in itertools.product(*[range(n) for n in ds]) if mg[idx]}
+    dh = data_shape(h)
+    mh = np.zeros(dh, dtype=bool)
+    for idx in itertools.product(*[range(n) for n in dh]):
+        mh[idx] = tuple(canon_of(h, idx)) in masked_canon
+    return mg, mh
+
+
+def holes_bool(vals):
+    return [v is None for v in vals]
 
 
 def make_gridseq(rng):
@@ -373,10 +399,32 @@ CORPUS_GRIDSEQ = [
 ]
 
 
+_ES = gdesc("esri", 0, (4, 3), "C", True, [True, False], "CELLS")
+CORPUS_SEQ_X = [
+    # seeded defect C15_g: flat data pushed on a source with reversed axes (Esri, reversed uniform / rectilinear; 2-D, 3-D)
+    (_ES, _U(False, [True, True]), False, "data", [1, 1], dict(flat=True, masked=False)),
+    (_ES, _ES, True, "data", [2], dict(flat=True, masked=False)),
+    (gdesc("esri", 0, (4, 3), "F", True, [True, False], "CELLS"), _U(False, [True, False]), False, "data", [1],
+     dict(flat=True, declare="source", push_masked=False)),
+    (gdesc("uniform", 0, (4, 3, 3), "F", True, [True, True, False], "CELLS"),
+     gdesc("uniform", 0, (4, 3, 3), "C", False, [True, True, True], "CELLS"), False, "data", [1, 2], dict(flat=True, masked=False)),
+    (gdesc("rect", 1, (3, 2, 4), "C", True, [False, True, True], "POINTS"),
+     gdesc("rect", 1, (3, 2, 4), "C", True, [False, True, True], "POINTS"), True, "data", [2], dict(flat=True, masked=True)),
+    (_U(False, [True, True], "POINTS"), _U(True, [True, True], "POINTS"), False, "data", [1], dict(flat=True, masked=False)),
+    # seeded defect C15_h: both ends declare the same physical mask, each in its own layout (axes_reversed differs)
+    (_U(True, [True, True]), _U(False, [True, True]), False, "data", [1, 1], dict(declare="both", push_masked=False)),
+    (_ES, _U(False, [True, True]), True, "data", [2], dict(declare="both", push_masked=True)),
+    (gdesc("uniform", 0, (4, 3, 2), "F", False, [True, False, True], "POINTS"),
+     gdesc("rect", 0, (4, 3, 2), "C", True, [True, True, True], "POINTS"), False, "time1", [2], dict(declare="both", push_masked=False)),
+    (_U(False, [True, False]), _ES, False, "data", [1], dict(declare="both", flat=True, push_masked=False)),
+]
+
+
 def generate(rng, tier):
     crng = __import__("random").Random(15)
     cases = [make_case(k, g, h, m, crng) for k, g, h, m in CORPUS_SPEC]
     cases += [make_seq_case(g, h, st, m, n, crng) for g, h, st, m, n in CORPUS_SEQ]
+    cases += [make_seq_case(g, h, st, m, n, crng, **kw) for g, h, st, m, n, kw in CORPUS_SEQ_X]
     cases += [{"kind": "gridseq", "grids": gs, "ops": ops, "masked": False, "mode": "objects"} for gs, ops in CORPUS_GRIDSEQ]
     for _ in range(600 if tier == "quick" else 6000):
         cases.append(make_gridseq(rng))
@@ -397,7 +445,10 @@ def generate(rng, tier):
                 # the same pair again as a script: static link read 2-4 times / several publications read repeatedly
                 static = rng.random() < 0.6
                 npulls = [rng.randint(2, 4)] if static else [rng.randint(1, 3) for _ in range(rng.randint(2, 3))]
-                cases.append(make_seq_case(g, h, static, rng.choice(["data", "time1"]), npulls, rng))
+                r = rng.random()
+                declare = None if r < 0.5 else "source" if r < 0.65 else "both"
+                cases.append(make_seq_case(g, h, static, rng.choice(["data", "time1"]), npulls, rng,
+                                           flat=rng.random() < 0.35, declare=declare, push_masked=rng.random() < 0.5))
     ncross = 500 if tier == "quick" else 5000
     for i in range(ncross):
         cases.append(_cross(rng, "methods" if i % 2 else "link"))
@@ -519,9 +570,15 @@ def run_seq(case, g, h):
     out >> inp
     inp.ping()
     t0 = None if static else T(0)
-    out.push_info(fm.Info(time=t0, grid=g))
+    kw_g, kw_h = {}, {}
+    if case.get("declare"):
+        mg, mh = mask_arrays(case)
+        kw_g["mask"] = mg
+        if case["declare"] == "both":
+            kw_h["mask"] = mh
+    out.push_info(fm.Info(time=t0, grid=g, **kw_g))
     try:
-        inp.exchange_info(fm.Info(time=t0, grid=h))
+        inp.exchange_info(fm.Info(time=t0, grid=h, **kw_h))
     except fm.errors.FinamMetaDataError:
         return {"res": [["err", 2]] * npull, "bools": []}
     except ValueError:
@@ -533,7 +590,13 @@ def run_seq(case, g, h):
         if op[0] == "push":
             k = op[1]
             tcur = None if static else T(1000 * (k + 1))
-            out.push_data(to_array(case["sets"][k]), tcur)
+            a = to_array(case["sets"][k])
+            if not case.get("push_masked", True):
+                a = np.ma.getdata(a)  # plain payload: tools.prepare applies the declared mask
+            if case.get("flat"):
+                # 1-D payload "in the grid's order" (documented: data.reshape(-1, order=grid.order))
+                a = a.reshape(-1, order=case["g"]["order"])
+            out.push_data(a, tcur)
         else:
             # a static input is asked alternately without and with a time
             t = (None if nread % 2 == 0 else T(77)) if static else tcur
@@ -574,10 +637,17 @@ def coq_case(case, obs):
         for op in case["ops"]:
             if op[0] == "push":
                 d = case["sets"][op[1]]
-                shape = ([1] if case["mode"] == "data" else []) + list(d["shape"])
-                ops.append(Some(P(G.NL(shape), L(VAL(v) for v in d["vals"]))))
+                if case.get("flat"):
+                    # the flat list as pushed; the model places entry n at the data index flattening to n in the grid's order
+                    obj = np.empty(len(d["vals"]), dtype=object)
+                    obj[:] = d["vals"]
+                    fl = obj.reshape(d["shape"]).reshape(-1, order=case["g"]["order"])
+                    ops.append(C("SPushFlat", L(VAL(v) for v in fl)))
+                else:
+                    shape = ([1] if case["mode"] == "data" else []) + list(d["shape"])
+                    ops.append(C("SPush", G.NL(shape), L(VAL(v) for v in d["vals"])))
             else:
-                ops.append("(@None (list nat * list val))")
+                ops.append("SPull")
         return C("CLinkSeq", coq_grid(case["g"]), coq_grid(case["h"]), B(case["static"]), L(ops))
     shape = list(case["shape"])
     if case["kind"] == "link" and case["mode"] == "data":
@@ -763,6 +833,8 @@ def distribution(cases, obss):
         "mode": dict(Counter(c["mode"] for c in cases)),
         "masked": dict(Counter(str(c["masked"]) for c in cases)),
         "seq_static": dict(Counter(str(c["static"]) for c in cases if c["kind"] == "linkseq")),
+        "seq_flat_push": dict(Counter(str(c.get("flat")) for c in cases if c["kind"] == "linkseq")),
+        "seq_declared_mask": dict(Counter(str(c.get("declare")) for c in cases if c["kind"] == "linkseq")),
         "seq_reads": dict(Counter(sum(1 for op in c["ops"] if op[0] == "pull") for c in cases if c["kind"] == "linkseq")),
         "dim": dict(Counter(len(c["g"]["dims"]) for c in cases if "g" in c)),
         "classes": dict(Counter(c["g"]["cls"] + ">" + c["h"]["cls"] for c in cases if "g" in c)),
